@@ -150,6 +150,10 @@ func registerIntrinsics(ex *Explorer) {
 		in.stubs[str(a[0])] = iv.V
 		return nil
 	})
+	reg("Yield", func(in *Interp, fn *ssa.Function, a []Value) Value {
+		in.gYield()
+		return nil
+	})
 	reg("Mode", func(in *Interp, fn *ssa.Function, a []Value) Value {
 		in.mode[str(a[0])] = int(in.Concretize(a[1].(*sym.Term)))
 		return nil
